@@ -1376,3 +1376,151 @@ func identOf(e ast.Expr) *ast.Ident {
 	id, _ := ast.Unparen(e).(*ast.Ident)
 	return id
 }
+
+// ---------------------------------------------------------------- G3
+
+// ruleG3: a construct that blocks until its worker group has finished (and then
+// resolves the group's errors) joins the group under a context the group's own
+// abort hook cannot cancel: WaitGroup.Wait returns as soon as its context ends,
+// so joining under the abortable context resolves the result while in-flight
+// invocations are still running (their errors and panics are lost, and the
+// processing function outlives the call).
+func ruleG3(c *Ctx) {
+	R := c.R
+	p := c.P
+	R.Rule("G3", "where a construct stores the cancel function of a derived context as the group's abort hook and then joins the group before returning its result, the join is not made under that derived context (wg.Operation().Block()/Wait(), or wg.Wait with another context)", 1)
+	n := 0
+	for _, f := range p.FuncsIn("fun", "itertool") {
+		info := f.Info()
+		// ctx, cancel := context.WithCancel(…) with  opts.abort = cancel  in the same body
+		var derived types.Object
+		walkNoLit(f.Body, func(x ast.Node) bool {
+			as, ok := x.(*ast.AssignStmt)
+			if !ok || len(as.Lhs) != 2 || len(as.Rhs) != 1 {
+				return true
+			}
+			call, ok := ast.Unparen(as.Rhs[0]).(*ast.CallExpr)
+			if !ok || callName(info, call) != "context.WithCancel" {
+				return true
+			}
+			cid, ok1 := as.Lhs[0].(*ast.Ident)
+			kid, ok2 := as.Lhs[1].(*ast.Ident)
+			if !ok1 || !ok2 {
+				return true
+			}
+			cancel := info.Defs[kid]
+			if cancel == nil {
+				cancel = info.Uses[kid]
+			}
+			stored := false
+			walkNoLit(f.Body, func(y ast.Node) bool {
+				if a2, ok := y.(*ast.AssignStmt); ok && len(a2.Lhs) == 1 && len(a2.Rhs) == 1 {
+					if se, ok := ast.Unparen(a2.Lhs[0]).(*ast.SelectorExpr); ok && se.Sel.Name == "abort" {
+						if id, ok := ast.Unparen(a2.Rhs[0]).(*ast.Ident); ok && info.Uses[id] == cancel {
+							stored = true
+						}
+					}
+				}
+				return true
+			})
+			if stored {
+				derived = info.Defs[cid]
+				if derived == nil {
+					derived = info.Uses[cid]
+				}
+			}
+			return true
+		})
+		if derived == nil {
+			continue
+		}
+		// joins in the same body (not inside hooks started in the background: those are P2c's business)
+		walkNoLit(f.Body, func(x ast.Node) bool {
+			call, ok := x.(*ast.CallExpr)
+			if !ok {
+				return true
+			}
+			if _, isStmt := p.Parent(call).(*ast.ExprStmt); !isStmt {
+				return true
+			}
+			wgExpr, isWait := isWaitCall(info, call)
+			if !isWait {
+				return true
+			}
+			n++
+			at := fmt.Sprintf("%s/join(%s)", f.Name, exprStr(wgExpr))
+			bad := false
+			for _, a := range call.Args {
+				if id, ok := ast.Unparen(a).(*ast.Ident); ok && info.Uses[id] == derived {
+					bad = true
+				}
+			}
+			R.Check(!bad, "G3", at, p.Position(call.Pos()), "joined under a context the abort hook does not cancel",
+				fmt.Sprintf("%s joins its worker group with %s under %s, the context its own abort hook cancels: after the first failure (or a caller cancel) the join returns at once and the result is resolved while other invocations are still running — their errors and panics are lost and the processing function outlives the call", f.Name, exprStr(call), derived.Name()))
+			return true
+		})
+	}
+	if n == 0 {
+		R.Fail("G3", "fun/blocking-constructs", "-", "no blocking construct joins its abortable worker group any more")
+	}
+}
+
+// ---------------------------------------------------------------- X13
+
+// ruleX13: two error values are never compared with == / != (unless one side
+// is nil or of a concrete comparable type): if both hold the same dynamic type
+// and that type is not comparable (a struct with a slice field), the comparison
+// panics at run time — in CanContinueOnError that is outside WithRecover, on a
+// goroutine the library started.
+func ruleX13(c *Ctx, pkgs map[string]bool) {
+	R := c.R
+	p := c.P
+	R.Rule("X13", "no == / != between two interface-typed error values in the error-handling packages (errors.Is is used instead): the comparison panics when both hold the same non-comparable dynamic type", 0)
+	errT := types.Universe.Lookup("error").Type()
+	n := 0
+	for _, f := range p.Funcs {
+		if !pkgs[shortPkg(f.Pkg.PkgPath)] {
+			continue
+		}
+		info := f.Info()
+		walkNoLit(f.Body, func(x ast.Node) bool {
+			be, ok := x.(*ast.BinaryExpr)
+			if !ok || (be.Op != token.EQL && be.Op != token.NEQ) {
+				return true
+			}
+			lt, ok1 := info.Types[be.X]
+			rt, ok2 := info.Types[be.Y]
+			if !ok1 || !ok2 || lt.IsNil() || rt.IsNil() {
+				return true
+			}
+			isIface := func(t types.Type) bool {
+				_, ok := t.Underlying().(*types.Interface)
+				return ok && types.Implements(t, errT.Underlying().(*types.Interface))
+			}
+			if !isIface(lt.Type) || !isIface(rt.Type) {
+				return true
+			}
+			// comparison against a package-level sentinel variable (io.EOF, context.Canceled, …) is the classic idiom and
+			// cannot panic: the sentinel's dynamic type is a comparable pointer/string type
+			for _, side := range []ast.Expr{be.X, be.Y} {
+				var obj types.Object
+				switch t := ast.Unparen(side).(type) {
+				case *ast.Ident:
+					obj = info.Uses[t]
+				case *ast.SelectorExpr:
+					obj = info.Uses[t.Sel]
+				}
+				if v, ok := obj.(*types.Var); ok && v.Parent() != nil && v.Pkg() != nil && v.Parent() == v.Pkg().Scope() {
+					return true
+				}
+			}
+			n++
+			R.Fail("X13", fmt.Sprintf("%s/cmp(%s)#%d", f.Name, exprStr(be), n), p.Position(be.Pos()),
+				fmt.Sprintf("%s compares two error interface values with %s: when both hold the same dynamic type and it is not comparable (a struct error with a slice or map field) this panics at run time; errors.Is checks comparability first", f.Name, be.Op))
+			return true
+		})
+	}
+	if n == 0 {
+		R.OK("X13", "error-packages/no-interface-compare", "-", "no two error interface values are compared with == / !=")
+	}
+}
